@@ -750,7 +750,7 @@ def run_kinds(ctx, idx, seed, quick):
 
 def run(ctx):
     quick = ctx.tier == "quick"
-    progs = make_programs(ctx, 5 if quick else 110, 2 if quick else 30)
+    progs = make_programs(ctx, 2 if quick else 110, 1 if quick else 30)
     nchunk = 1 if quick else 8
     chunks = [progs[i::nchunk] for i in range(nchunk)]
     seeds = [ctx.rng.randrange(1 << 30) for _ in range(1 if quick else 6)]
